@@ -62,6 +62,12 @@ CHECKS.update({
    text='PARTIAL. Decided: add_days / add_months / get_roll never abort for every i8 day count, every month offset landing in 1970-2200, roll days 1-31, all modifiers (K, full range; add_bus_days and lag over the full i8 range in thorough; M: every i8 count on gap-free calendars, n in -2..2 on arbitrary calendars); roll never aborts; Dual/Dual2::try_new (vars 0..3 with duplicates, dual 0..4, dual2 0..10), Ccy/FXPair::try_new, Cal::new with week masks 0-6 return Ok with the shape invariant or Err on every path. NOT decided: arbitrary JSON texts (the serde_json parser and derive visitors are outside reach) - stated in DESIGN §4.',
    note='FXRates/NamedCal/PPSpline constructors are exercised for panics inside C09/C06/C15. Finding fixed: add_days(i8::MIN).'),
 })
+CHECKS.update({
+ 'C06': dict(engine='mirsym', technique='symbolic execution of the MIR of the DateRoll impls of Cal/UnionCal/NamedCal/CalType over member calendars with free (uninterpreted) holiday sets and week masks, of NamedCal::try_new on grammar strings compared for a symbolic date with the explicit combination, and of the == impls with the date range summarised by one symbolic day; z3 validity per path; native replay',
+   category='model_checking', design_ref='DESIGN.md §3.6',
+   text='z3 proves for a symbolic date and ARBITRARY member calendars (free holiday sets and week masks; 1..3 members; none/0/1/2 settlement calendars) that a combined calendar is a business day iff every member is, a settlement day iff every settlement calendar is a business day (always if none), weekday/holiday as documented, for UnionCal, NamedCal and all CalType variants; that a calendar named by each string of the grammar (case variants, commas, one pipe, same name on both sides) equals, date for date, the explicit UnionCal of its parts built from the real tables, and that unknown parts / empty parts / more than one pipe give Err; that each per-day term of the hand-written == impls is exactly agreement on business-day and settlement status; cal_date_range enumerates consecutive days.',
+   note='The 84k-day loop of == is summarised by one symbolic day (range summary checked separately on 1..5-day ranges). <=3 members. Name->table wiring is C07.'),
+})
 NA_REASON = 'no registered check in this revision yet (work in progress; planned solver-based check described in DESIGN.md §3) — not claimed'
 
 checks = []
@@ -90,7 +96,7 @@ m = {
            'add_only': True},
  'engines': [
    {'name': 'kani', 'path': '/verif/kani', 'serves_properties': ['C08', 'C11', 'C20', 'C04'], 'kind_free_text': 'Kani 0.68 / CBMC 6.11 proof harnesses over the compiled crate (path dependency on /repo), native replay binary in the same crate'},
-   {'name': 'mirsym', 'path': '/verif/mirsym', 'serves_properties': ['C01','C02','C03','C04','C05','C17','C18','C19','C20'], 'kind_free_text': 'symbolic executor for rustc MIR (regenerated from /repo on every run) discharging path obligations with z3'},
+   {'name': 'mirsym', 'path': '/verif/mirsym', 'serves_properties': ['C01','C02','C03','C04','C05','C06','C17','C18','C19','C20'], 'kind_free_text': 'symbolic executor for rustc MIR (regenerated from /repo on every run) discharging path obligations with z3'},
    {'name': 'tables', 'path': '/verif/tables', 'serves_properties': ['C07'], 'kind_free_text': 'SMT encoding of the static holiday tables against the published rules over a symbolic day'},
  ],
  'checks': checks,
